@@ -33,7 +33,7 @@ META = {
     "bounds": {"quick": {"n": "0..13", "i": "symbolic in [-1, n+1]"}, "thorough": {"n": "0..24", "i": "symbolic in [-1, n+1]"}},
     "stubs": ["cli.ccsds_generator / cli.XtcePacketDefinition: yield n distinct tokens", "rich Table / console.print / pretty.pprint: recorders",
               "open(): a real empty temporary file"],
-    "outside_claim": ["packet files whose packets the definition cannot decode without an error that Spec-XTCE allows or demands (decoder exceptions propagate through `spp parse` by the library's error model; C14 proves such packets are never delivered as clean)", "rendering by rich", "click argument parsing", "negative packet indices", "files with more than N packets"],
+    "outside_claim": ["rendering by rich", "click argument parsing", "negative packet indices", "files with more than N packets"],
     "assumptions": ["the framer terminates and yields each packet once (C02, C10)"],
 }
 
@@ -315,7 +315,11 @@ class ParseCLI(_e2e.E2E):
     def extra(self, ctx, stream, pk, yields, index_of):
         if self._end != "stop":
             # a file the definition cannot decode (Spec-XTCE decides whether the exception is allowed): the index form fails the same way
-            return [("spp parse fails only on a file on which the definition's generator fails", self._plain_end != "stop")], {"idx": 0}, {"index": None, "cli_end": self._end}
+            # the command must not fail where the generator does not; and where the generator itself raises (a packet the definition cannot
+            # decode) the command ends in that traceback - the property says it never does ("on any file"): reported, and listed as a KNOWN
+            # finding in known_findings.json (how the CLI should report a decoding error is a design decision of the maintainers)
+            return [("spp parse fails only on a file on which the definition's generator fails", self._plain_end != "stop"),
+                    ("spp parse does not end in a traceback when a packet cannot be decoded", False)], {"idx": 0}, {"index": None, "cli_end": self._end}
         n = len(yields)
         i = z3.BitVec("idx", bv.W)
         ctx.assume(z3.And(i >= 0, i <= n + 1))
@@ -525,7 +529,8 @@ def judge(req, got):
         if got.get("cli_end"):
             if got["end"] == "stop":
                 return "reproduced", f"spp parse on template {i['template']} file {i['stream']['hex']} ends in {got['cli_end']} although the definition's generator decodes the file"
-            return "not-reproduced", "the definition cannot decode this file (allowed by Spec-XTCE): no statement about the command"
+            return "reproduced", (f"spp parse on template {i['template']} file {i['stream']['hex']}: the definition's generator raises {got['end'][4:]} for a packet it cannot decode "
+                                  f"(allowed for the generator) and the command ends in that traceback ({got['cli_end'][4:]})")
         ys, ix, k = got["yields"], got["index"], i["idx"]
         head = f"spp parse --packet {k} on template {i['template']} file {i['stream']['hex']} (listing shows input packets {[y['i'] for y in ys]})"
         if ix["exc"]:
@@ -564,6 +569,8 @@ def finding_key(f, req, got):
         return "C19:describe-packets-duplicate-rows" if 1 <= i.get("n", 0) <= 9 else f"C19:describe:n={i.get('n')}"
     if req.get("kind") == "describe-e2e":
         return "C19:describe-e2e:" + f["label"].split(":")[0][:40]
+    if req.get("kind") == "parse-cli" and isinstance(got, dict) and got.get("cli_end") and got.get("end", "stop") != "stop":
+        return "C19:parse-traceback-when-a-packet-cannot-be-decoded"
     if req.get("kind") == "parse-cli":
         return "C19:parse-cli:" + re.sub(r"pkt\d+", "pkt", f["label"])[:50]
     if i.get("i") is not None and i.get("i") == i.get("n"):
